@@ -121,7 +121,7 @@ func (p *Program) addFunc(fn *ssa.Function) {
 // specType resolves a Go type expression in the scope of fn's file.
 func (p *Program) specType(expr string, fn *ssa.Function) (types.Type, error) {
 	switch expr {
-	case "seq", "nat":
+	case "seq", "nat", "intarray":
 		return nil, fmt.Errorf("spec-only type")
 	}
 	var pkg *types.Package
